@@ -66,7 +66,7 @@ def run(res, args):
     import wbwalk
     from props.c13 import exceeding_values
     nfield = 0
-    for name, doc in (docs if not quick else rng.sample(docs, 50)):
+    for name, doc in rng.sample(docs, 50 if quick else 90):
         w = wbwalk.fields(doc, ext_t_has_arg=name.startswith('wv'))
         if w is None:
             continue
@@ -84,7 +84,7 @@ def run(res, args):
     alpha = [0x00, 0x01, 0x02, 0x03, 0x04, 0x05, 0x40, 0x43, 0x44, 0x45, 0x80, 0x83, 0x84, 0x85, 0xC3, 0xC4, 0xC5, 0x61, 0x7F, 0xFF]
     kmax = 3 if quick else 4
     nsmall = 0
-    for hd in (bytes([3, 4, 0x6a, 0]), bytes([3, 5, 0x6a, 4]) + b'ab\x00c'):
+    for hd in (bytes([3, 4, 0x6a, 0]), bytes([3, 5, 0x6a, 4]) + b'ab\x00c')[:2 if quick else 1]:
         for k in range(0, kmax + 1):
             for body in itertools.product(alpha, repeat=k):
                 lines.append(f'W2X 0 0 {opts()} {(hd + bytes(body)).hex()}'); nsmall += 1
